@@ -82,7 +82,7 @@ def run_variant(args) -> dict:
                     for rule in registry.PROPERTIES[prop]["rules"]:
                         rule(ctx)
                 known = [(k["rule"], k["where"], k["construct"]) for k in load_known()
-                         if k.get("property") == prop and k.get("status", "known") == "known"]
+                         if (k.get("property") == prop or prop in k.get("also", [])) and k.get("status", "known") == "known"]
                 for f in ctx.findings:
                     if f.key() not in known:
                         fired_rules.append((prop, f.rule, f.where, f.message[:160]))
